@@ -13,6 +13,7 @@
 From Verif Require Import Bytes Keys Codec Skiplist SkiplistInst.
 From Verif Require SkiplistProofs SkiplistInstProofs.
 Import SkiplistProofs SkiplistInstProofs.
+From Coq Require Import Sorted.
 Open Scope nat_scope.
 
 (* CompareKeys is a strict total order on internal keys, and Eq means the same bytes *)
@@ -143,6 +144,16 @@ Theorem C22_conc_partial_read : forall tr s i p n, c_exec s_new tr s -> i < max_
   In n (s_level_nodes s i) /\ (p = head \/ ckeys (s_kof s p) (s_kof s n) = Lt).
 Proof. exact I_read_reach. Qed.
 Print Assumptions C22_conc_partial_read.
+
+(* a forward iteration (SeekToFirst, then Next, each load at an arbitrary later moment while any
+   number of Puts proceed) visits linked nodes only and sees strictly increasing keys: a
+   concurrent reader never observes unsorted or duplicate entries; values are atomic words *)
+Theorem C22_conc_partial_reader_sorted : forall tr s ns s2, c_exec s_new tr s ->
+  c_reader_fwd s head ns s2 ->
+  (forall n, In n ns -> In n (s_level_nodes s2 0)) /\
+  StronglySorted (fun a b => ckeys (s_kof s2 a) (s_kof s2 b) = Lt) ns.
+Proof. exact I_reader. Qed.
+Print Assumptions C22_conc_partial_reader_sorted.
 
 (* ---- the hypotheses are satisfiable; a small run ---- *)
 Definition C22_ex_puts : list (bytes * value_struct * nat) :=
